@@ -670,11 +670,14 @@ func deepCopyInPlace(x reflect.Value) {
 
 // probeContainers walks an original value and its (equal) restored counterpart and
 // runs the behavioural probe of every encapsulated container found in them.
+var probesRun int
+
 func probeContainers(a, b reflect.Value, path string) string {
 	if !a.IsValid() || !b.IsValid() || a.Type() != b.Type() {
 		return ""
 	}
 	if pr, ok := ctrProbes[a.Type()]; ok {
+		probesRun++
 		if d := pr(deepCopy(a), deepCopy(b)); d != "" {
 			return path + ": " + d
 		}
@@ -1109,7 +1112,7 @@ func init() {
 		return map[string]any{"types": types, "failures": fails, "failure_count": failCount, "evaluations": evals,
 			"tolerated_nil_vs_empty_inside_containers": tolerated, "tolerated_example": toleratedExample,
 			"not_checkpointed_fields": keys(skipped), "containers_without_maker": keys(missing),
-			"container_types": containerNames()}, nil
+			"container_types": containerNames(), "container_probes": probesRun}, nil
 	})
 }
 
